@@ -70,7 +70,9 @@ class CallMixin:
             return self.call_repo(fv.cls.methods["__call__"], fv, args, kwargs, frame, node, force_inline)
         if isinstance(fv, Opaque):
             amb = fv.ambient or any(isinstance(a, Opaque) and a.ambient for a in args)
-            return Opaque(fv.desc + "()", ambient=amb)
+            ad = ", ".join((a.desc if isinstance(a, Opaque) else key_str(val_key(a))) for a in args)
+            self.ctx.event("opaque-call", (fv.desc, list(args), dict(kwargs)), frame.loc(node))
+            return Opaque("%s(%s)" % (fv.desc, ad), ambient=amb)
         if isinstance(fv, ModV) and fv.dotted:
             return self.call_ext(fv.dotted, None, args, kwargs, frame, node)
         if isinstance(fv, Num) and fv.r.single_atom() is not None:
@@ -176,7 +178,7 @@ class CallMixin:
                 raise RaiseSignal("TypeError", "%s() missing required argument %r" % (cls.name, f.name), node, frame)
             if f.converter is not None:
                 cv = self.eval(f.converter, cframe)
-                v = self.call_function(cv, [v], {}, frame, node, force_inline=True)
+                v = self.call_merged(cv, [v], frame, node)
             obj.fields[f.name] = v
         for f in cls.fields:
             if f.validator is not None:
@@ -189,6 +191,34 @@ class CallMixin:
         if "__attrs_post_init__" in cls.methods and self.cfg.post_init(cls):
             self.run_function(cls.methods["__attrs_post_init__"], {"self": obj})
         return obj
+
+    def call_merged(self, fv, args, frame, node):
+        """Call a small pure function (attrs converter) and merge a two-way numeric branch into one ite form, so that a
+        converter written with an `if` statement is the same value as one written with a conditional expression."""
+        from .symeval import Ctx, explore
+        if not (isinstance(fv, FuncV) and fv.kind == "repo"):
+            return self.call_function(fv, args, {}, frame, node, force_inline=True)
+        outer = self
+
+        def runner(ctx):
+            from .evaluator import Evaluator
+            ev = Evaluator(ctx)
+            ctx.facts.update(outer.ctx.facts)
+            ctx.bound_depth = outer.ctx.bound_depth
+            return ev.call_function(fv, list(args), {}, frame, node, force_inline=True)
+        try:
+            outs = explore(self.repo, self.cfg, runner, max_paths=8)
+        except Exception:
+            return self.call_function(fv, args, {}, frame, node, force_inline=True)
+        rets = [o for o in outs if o.kind == "return"]
+        if len(outs) == 1 and rets:
+            return rets[0].value
+        if len(outs) == 2 and len(rets) == 2 and all(len(o.trace) == 1 for o in outs) and all(isinstance(o.value, Num) for o in outs):
+            (c1, d1), (c2, d2) = outs[0].trace[0], outs[1].trace[0]
+            if isinstance(c1, tuple) and len(c1) == 3 and isinstance(c1[1], Rat) and poly.key_equiv(c1, c2) and d1 != d2:
+                a, b = (outs[0].value.r, outs[1].value.r) if d1 else (outs[1].value.r, outs[0].value.r)
+                return Num(mk_ite(c1, a, b))
+        return self.call_function(fv, args, {}, frame, node, force_inline=True)
 
     # -- externals ----------------------------------------------------------------
     def sum_of(self, v, frame, node) -> Val:
@@ -288,7 +318,8 @@ class CallMixin:
                     self.release_bound()
                 if not isinstance(kv, Num):
                     raise Unmodelled("non-numeric key in min/max at %s" % frame.loc(node))
-                a = poly.T.app("fn", "arg" + name, (Rat.atom(idx), lo, hi, kv.r, val_key(elem)), flags=("int", "nonneg"))
+                ci, ck_ = canon_bound(idx, kv.r)
+                a = poly.T.app("fn", "arg" + name, (Rat.atom(ci), lo, hi, ck_), flags=("int", "nonneg"))
                 if isinstance(elem, Num) and elem.r == Rat.atom(idx) and lo.is_zero():
                     return Num(Rat.atom(a))
                 return self.subst_val(elem, {idx.id: Rat.atom(a)})
@@ -324,6 +355,16 @@ class CallMixin:
             if isinstance(a0, Num):
                 return self.num_as_list(a0)
             return a0
+        if d == "itertools.product" and args and not kwargs:
+            cols = [self.as_items(self.force(a, frame, node), frame, node) for a in args]
+            if all(c is not None for c in cols):
+                import itertools as _it
+                total = 1
+                for c in cols:
+                    total *= max(len(c), 1)
+                if total <= 64:
+                    return ListV("lit", items=[TupV(list(t)) for t in _it.product(*cols)])
+            return ListV("opaque", path="product(%s)" % ", ".join(key_str(val_key(self.force(a, frame, node))) for a in args), ty=Ty("tuple", [ANY] * len(args)))
         if d in ("builtins.enumerate", "builtins.zip"):
             seqs = [self.force(a, frame, node) for a in args]
             if all(self.as_items(q, frame, node) is not None for q in seqs if not isinstance(q, ObjV)) and not any(isinstance(q, ObjV) for q in seqs):
@@ -348,6 +389,23 @@ class CallMixin:
                 start = kwargs.get("start", args[1] if len(args) > 1 else Num(0))
                 return ListV("fam", idx=idx, lo=Rat.const(0), hi=n, elem=TupV([Num(Rat.atom(idx) + start.r), elems[0]]))
             return ListV("fam", idx=idx, lo=Rat.const(0), hi=n, elem=TupV(elems))
+        if d == "builtins.dict":
+            items = {}
+            if args:
+                a0 = self.force(args[0], frame, node)
+                if isinstance(a0, DictV):
+                    items.update(a0.items)
+                else:
+                    its = self.as_items(a0, frame, node)
+                    if its is None:
+                        raise Unmodelled("dict() of a non-literal at %s" % frame.loc(node))
+                    for it in its:
+                        kv = self.as_items(it, frame, node)
+                        if not (kv and len(kv) == 2 and isinstance(kv[0], StrV) and kv[0].s is not None):
+                            raise Unmodelled("dict() of non-constant keys at %s" % frame.loc(node))
+                        items[kv[0].s] = kv[1]
+            items.update(kwargs)
+            return DictV(items)
         if d == "builtins.set":
             a0 = self.force(args[0], frame, node) if args else ListV("lit", items=[])
             return ListV("opaque", path="set(%s)" % key_str(val_key(a0)), ty=ANY, is_set=True)
